@@ -176,6 +176,27 @@ def run(res, tier):
         (r"CaCert::chain$", is_ok, "chain depth within max-ca-depth"),
         (r"ProcessPubPoint::process_ca$", ok_some, "processor accepted the child CA"),
     ], key_prefix="mir:depth-gate")
+    # ... and a certificate that is refused for its depth or for repeating a key is only dropped: the publication
+    # point (and the run) go on.  An Err out of process_ca_cer becomes a fatal run failure.
+    from gating import is_err
+    for i, p in enumerate(paths):
+        if p.kind != "return":
+            continue
+        refused = [e for e in p.events if e.kind == "call" and re.search(r"CaCert::(chain|check_loop)$", e.name)
+                   and is_err(E, p, e) is not None and must(E, p, is_err(E, p, e))]
+        if not refused:
+            continue
+        n_total += 1
+        d = p.ret.get(("disc",))
+        if d is None or E.feasible(p.cond, d == 1):
+            what = refused[-1].name.split("::")[-1]
+            if not any(v["key"] == "mir:refused-ca-aborts-run:" + what for v in res.violations):
+                fn = mprop.write_cex(res, "refused_ca_aborts_%s_%d" % (what, i), p, E,
+                                     "process_ca_cer returns Err after CaCert::%s refused the certificate: the whole validation "
+                                     "run fails instead of the certificate being dropped" % what)
+                res.violation("mir:refused-ca-aborts-run:" + what,
+                              "a CA certificate beyond max-ca-depth (or repeating a key on its chain) makes process_ca_cer return "
+                              "Err (fatal run failure) instead of being dropped (CaCert::%s failed)" % what, fn)
     res.distinct += n_total
     res.bounds += [
         "CaCert::chain: issuer depth and max depth are arbitrary 64-bit values (overflow case included)",
